@@ -146,12 +146,22 @@ func checkUCI(c Case, rec *evid.Rec) error {
 		lines = append(lines, c.Bad, "fen")
 	}
 	out, errOut := eng.UCI(lines)
-	got := strings.Split(strings.TrimSpace(out), "\n")
+	got := eng.FENLines(out)
 	if len(got) < 1 || got[0] != c.FEN {
 		return fmt.Errorf("`position fen %s` + `fen` printed %q (stderr %q)", c.FEN, got, errOut)
 	}
 	if c.Bad != "" {
-		if len(got) != 2 || got[1] != c.FEN {
+		// The command counts as rejected unless the reader itself accepts its text as a valid position (a
+		// more lenient reader, e.g. one that completes missing counters, may legitimately install it).
+		alt := ""
+		if txt := strings.TrimSpace(strings.TrimPrefix(c.Bad, "position fen")); txt != c.Bad {
+			if nb, err := board.FromFEN(txt); err == nil && eng.Consistent(nb) == "" {
+				if rp := eng.ToRef(nb); rp.Valid() == nil {
+					alt = nb.FEN()
+				}
+			}
+		}
+		if len(got) != 2 || (got[1] != c.FEN && (alt == "" || got[1] != alt)) {
 			return fmt.Errorf("after the rejected command %q `fen` printed %q, the position was %q (stderr %q)", c.Bad, got[1:], c.FEN, errOut)
 		}
 		if rec != nil {
@@ -166,7 +176,7 @@ func checkUCI(c Case, rec *evid.Rec) error {
 			script = append(script, "position fen "+f, "fen")
 		}
 		out, errOut := eng.UCI(script)
-		got := strings.Split(strings.TrimSpace(out), "\n")
+		got := eng.FENLines(out)
 		for i, f := range all {
 			if i >= len(got) || got[i] != f {
 				g := ""
